@@ -391,7 +391,7 @@ def _normalisers(rep, M, src):
     from sa.cross import include
     include(rep, src, "C07", {"R5"}, "R6", "the Aidon normaliser stores the clock element's datetime unchanged")
     include(rep, src, "C08", {"R1", "R4"}, "R6", "the Kaifa normalisers store the list clock / APDU date-time unchanged, in every documented layout")
-    include(rep, src, "C09", {"R5"}, "R6", "the Kamstrup normalisers store the list clock / APDU date-time unchanged")
+    include(rep, src, "C09", {"R2", "R5"}, "R6", "the Kamstrup normalisers store the list clock / APDU date-time unchanged (for every clock status)")
 
 
 def thorough(src, rep):
